@@ -1,7 +1,7 @@
 // C16 harness: the debug checks on releases.  Bad calls run in a forked child whose invalid-pointer handler
 // exits with a distinct code, so the parent sees "reported" / "abort" / "crash" / "accepted" and keeps its state.
 //  mode ord   : the real detail::ordered_free_memory_list in lock-step (nodes and last-deallocation cursor after every op)
-//               header "ord <node_size> <low|high>"; ops: ins off size | a | aa bytes | d k | dbl k | q
+//               header "ord <node_size> <low|high>"; ops: ins off size | a | aa bytes | d k | dbl k | dbla k nn | q
 //  mode small : the real detail::small_free_memory_list; ops: ins off size | a | d k | bad outside off | bad mis k delta | bad dbl k
 //  mode lifo  : static / virtual / fixed block sources: "lifo <static|virtual|fixed> <bs> <n>"; ops: ab | db | bad k
 //  mode unwind: memory_stack: ops: a size | m | u k | bad k (unwind to a marker taken above the current top)
@@ -116,6 +116,15 @@ static int run_ord(std::istringstream& hs, const std::string& header)
             char* victim = nodes[k % nodes.size()];
             const char* cls = in_child([&] { l->deallocate(victim); }, [&] { return dump(*l); });
             res = std::string(cls) + " " + std::to_string(victim - g.mem) + " index=" + std::to_string(k % nodes.size() + 1);
+        }
+        else if (op == "dbla")
+        {   // release, as an array of nn nodes, memory whose first node is on the free list (deallocate(ptr, n) with n > node size)
+            std::size_t k, nn; is >> k >> nn; if (l->empty() || nn < 2) { std::printf("%s = skipped\n", line.c_str()); continue; }
+            std::vector<char*> nodes; { char* p = l->begin_node(); char* c = xor_list_get_other(p, nullptr); while (c != l->end_node()) { nodes.push_back(c); char* n = xor_list_get_other(c, p); p = c; c = n; } }
+            char* victim = nodes[k % nodes.size()]; std::size_t bytes = nn * l->node_size();
+            if (victim + bytes > g.mem + sizeof g.mem) { std::printf("%s = skipped\n", line.c_str()); continue; }
+            const char* cls = in_child([&] { l->deallocate(victim, bytes); }, [&] { return dump(*l); });
+            res = std::string(cls) + " " + std::to_string(victim - g.mem) + " " + std::to_string(bytes) + " index=" + std::to_string(k % nodes.size() + 1);
         }
         else if (op == "q") res = "q";
         else continue;
@@ -315,10 +324,13 @@ static int run_pool_t(const std::string& header, std::size_t ns, std::size_t bs)
     Pool p(ns, bs);
     std::printf("%s = ok | dbl=%d asserts=%d ptr=%d\n", header.c_str(), FOONATHAN_MEMORY_DEBUG_DOUBLE_DEALLOC_CHECK, FOONATHAN_MEMORY_DEBUG_ASSERT, FOONATHAN_MEMORY_DEBUG_POINTER_CHECK);
     std::vector<void*> live, freed; std::string line;
+    struct arr { void* p; std::size_t n; }; std::vector<arr> lives, freeds;
     while (std::getline(std::cin, line))
     {
         std::istringstream is(line); std::string op; is >> op; std::string res;
-        if (op == "a") { void* q = p.allocate_node(); live.push_back(q); for (std::size_t i = 0; i < freed.size(); ++i) if (freed[i] == q) { freed.erase(freed.begin() + long(i)); break; } res = "ok"; }
+        if (op == "a") { void* q = p.allocate_node(); live.push_back(q); for (std::size_t i = 0; i < freed.size(); ++i) if (freed[i] == q) { freed.erase(freed.begin() + long(i)); break; }
+            for (std::size_t i = 0; i < freeds.size();) { if (freeds[i].p == q) freeds.erase(freeds.begin() + long(i)); else ++i; }   // its first node is not free any more
+            res = "ok"; }
         else if (op == "d") { std::size_t k; is >> k; if (live.empty()) { std::printf("%s = skipped\n", line.c_str()); continue; } k %= live.size(); void* q = live[k]; live.erase(live.begin() + long(k)); p.deallocate_node(q); freed.push_back(q); res = "released"; }
         else if (op == "dbl")
         {
@@ -326,6 +338,35 @@ static int run_pool_t(const std::string& header, std::size_t ns, std::size_t bs)
             k %= freed.size(); void* q = freed[k];
             const char* cls = in_child([&] { p.deallocate_node(q); });
             res = std::string(cls) + (k == freed.size() - 1 ? " latest" : " earlier") + " freed=" + std::to_string(freed.size());
+        }
+        else if (op == "aa" || op == "da" || op == "dbla")
+        {   // arrays through the public interface (pools with array support only)
+            if constexpr (Pool::pool_type::value)
+            {
+                if (op == "aa")
+                {
+                    std::size_t n; is >> n;
+                    try { void* q = p.allocate_array(n); lives.push_back({q, n}); res = "ok"; } catch (...) { res = "throw"; }
+                    // memory that is handed out again is not "already free" any more
+                    for (std::size_t i = 0; i < freeds.size();) { if (lives.back().p == freeds[i].p && res == "ok") freeds.erase(freeds.begin() + long(i)); else ++i; }
+                    if (res == "ok") { char* b = static_cast<char*>(lives.back().p); char* e = b + n * p.node_size();
+                        for (std::size_t i = 0; i < freeds.size();) { char* f = static_cast<char*>(freeds[i].p); if (f >= b && f < e) freeds.erase(freeds.begin() + long(i)); else ++i; }
+                        for (std::size_t i = 0; i < freed.size();) { char* f = static_cast<char*>(freed[i]); if (f >= b && f < e) freed.erase(freed.begin() + long(i)); else ++i; } }
+                }
+                else if (op == "da")
+                {
+                    std::size_t k; is >> k; if (lives.empty()) { std::printf("%s = skipped\n", line.c_str()); continue; }
+                    k %= lives.size(); auto x = lives[k]; lives.erase(lives.begin() + long(k)); p.deallocate_array(x.p, x.n); freeds.push_back(x); res = "released";
+                }
+                else
+                {
+                    std::size_t k; is >> k; if (freeds.empty()) { std::printf("%s = skipped\n", line.c_str()); continue; }
+                    k %= freeds.size(); auto x = freeds[k];
+                    const char* cls = in_child([&] { p.deallocate_array(x.p, x.n); });
+                    res = std::string(cls) + (k == freeds.size() - 1 ? " latest" : " earlier") + " n=" + std::to_string(x.n);
+                }
+            }
+            else { std::printf("%s = skipped\n", line.c_str()); continue; }
         }
         else continue;
         std::printf("%s = %s | cap=%zu\n", line.c_str(), res.c_str(), p.capacity_left());
